@@ -413,3 +413,38 @@ def r15_14_bridges_truncate_only_to_microseconds(ctx: Ctx) -> RuleResult:
             else:
                 rr.fail(f.qual, f"`{unparse(n)[:80]}` truncates to a unit coarser than a microsecond: the part below `{unparse(div)}` is dropped from the converted value", ctx.loc(f, n))
     return rr
+
+
+@rule("C15")
+def r15_15_sub_second_accessors_truncate(ctx: Ctx) -> RuleResult:
+    """The stdlib types hold microseconds; what lies below is DROPPED by every bridge, never rounded (rounding 999999.5 us up wraps
+    the microsecond field to 0 and moves the value back by almost a second).  LocalTime's millisecond / microsecond / tick-of-second
+    accessors, which the bridges and `to_naive_datetime` read, are evaluated by the abstract interpreter on exact nanosecond
+    values and compared with floor division."""
+    from ..absint import Iv, Obj
+    from ..oblig import interp
+
+    rr = RuleResult("R15.15", "LocalTime's sub-second accessors (millisecond, microsecond, tick_of_second, nanosecond_of_second) truncate (evaluated on exact values, .5 boundaries included)", min_instances=3)
+    M = ctx.M
+    c = M.cls("LocalTime")
+    nps = 10**9
+    spec = {"millisecond": lambda n: (n % nps) // 10**6, "microsecond": lambda n: (n % nps) // 1000, "tick_of_second": lambda n: (n % nps) // 100, "nanosecond_of_second": lambda n: n % nps}
+    for name, want in spec.items():
+        f = M.find_method(c, name)
+        if f is None or isinstance(f.node, ast.Lambda):
+            continue
+        rr.inst()
+        bad = None
+        for n in (0, 1, 499, 500, 999, 1000, 999_999_500, 999_999_999, 45_296 * nps + 999_999_500, 86_399 * nps + 999_999_999, 12 * 3600 * nps + 123_456_789):
+            so = Obj("LocalTime", {mangle("LocalTime", "__nanoseconds"): Iv(n, n)})
+            I = interp(ctx)
+            I.max_depth = 5
+            rets, _ = I.analyse(f, self_obj=so, params={})
+            got = {int(v.lo) for v, _x in rets if isinstance(v, Iv) and v.lo == v.hi}
+            if got != {want(n)}:
+                bad = bad or (n, sorted(got) or [repr(v) for v, _x in rets][:1], want(n))
+        if bad is None:
+            rr.ok({"accessor": f.qual})
+        else:
+            rr.fail(f.qual, f"{name} of a time with {bad[0]} ns since midnight evaluates to {bad[1]}, truncation gives {bad[2]}", ctx.loc(f))
+    return rr
